@@ -167,7 +167,7 @@ func purityJob(payload string) string {
 
 func c11(c *Ctx) {
 	n := c.N(6000, 100000)
-	c.Rule = "random (query, document) pairs: queries over all functions (RemoveKeysBy*, Select, AsArray, filters returning sub-slices, aggregates with arguments, string and comparison functions, groups); documents with nested maps, []any and typed slices (some with spare capacity shared with a longer slice), and — tagged — maps whose sibling keys collide under case folding; each pair evaluated 3..50 times interleaved with 6 other operations on the same data and with evaluations on a deep copy; data and operation snapshots compared before/after. Non-trivial = the query parses and its first evaluation succeeds; distinct by (query, data)."
+	c.Rule = "random (query, document) pairs: queries over all functions (RemoveKeysBy*, Select, AsArray, filters returning sub-slices, filters applied to the result of First / Last / Index / Select, aggregates with arguments, string and comparison functions, groups); documents with nested maps, []any, arrays of arrays and typed slices (some with spare capacity shared with a longer slice), and — tagged — maps whose sibling keys collide under case folding; each pair evaluated 3..50 times interleaved with 6 other operations on the same data and with evaluations on a deep copy; data and operation snapshots compared before/after. Non-trivial = the query parses and its first evaluation succeeds; distinct by (query, data)."
 	r := c.Rng
 	g := &qgen{c: c, Carriers: true}
 	qs := []string{
@@ -176,6 +176,9 @@ func c11(c *Ctx) {
 		"$.xs.First().tags", "$.xs.Last()", "$.m", "$.m.ab", "$.M.AB", "$.s.ReplaceAll(\"a\",\"b\")", "$.s.Left(1)", "{OR,$.n.Greater(1),$.s.Contains(\"a\")}", "$.n.Add($.nums.First())", "$.xs.k", "$.xs.Index(0).k.AnyOf($.nums)",
 		"$.xs[@.tags[@.Equal(\"x\")].Any()]", "$.m.IsEmpty()", "$.xs.Count()", "$.nums.AsJSON()", "$.m.AsJSON()",
 		"$.m.Select(\"$\")", "$.m.Select(\"$.AsArray().Count()\")", "$.m.Select(\"$\").First()", "$.m.Count()", "$.m.Sum()",
+		// filters applied to what a function handed back — the caller's own inner arrays for First / Last / Index
+		"$.grid.First()[@.Greater(3)]", "$.grid.Last()[@.Less(4)]", "$.grid.Index(0)[@.Greater(3)].Count()", "$.grid.First()[@.Greater(3)].Sum()", "$.grid.Index(1)[OR,@.Equal(7),@.Less(2)]",
+		"$.xs.First().tags[@.Equal(\"y\")]", "$.xs.Last().tags[@.Equal(\"y\")].Count()", "$.grid.AsArray().First().First()[@.Greater(3)]", "$.grid.Select(\"$[@.Greater(3)]\")", "$.grid.First().AsArray().First()[@.Less(5)]",
 	}
 	type pc struct {
 		q         string
@@ -222,7 +225,15 @@ func c11(c *Ctx) {
 			}
 			mkv = kv2
 		}
-		doc := h.Obj("m", h.Obj(mkv...), "xs", h.SliceAny(xs...), "nums", h.SliceAny(nums...), "dec", h.Slice("dec", decs...), "typed", h.TypedSlice(typed...),
+		grid := []*D{}
+		for j, m := 0, 1+r.Intn(3); j < m; j++ {
+			row := []*D{}
+			for k, w := 0, 2+r.Intn(4); k < w; k++ {
+				row = append(row, h.FloatD(float64(r.Intn(9))))
+			}
+			grid = append(grid, h.SliceAny(row...))
+		}
+		doc := h.Obj("m", h.Obj(mkv...), "grid", h.SliceAny(grid...), "xs", h.SliceAny(xs...), "nums", h.SliceAny(nums...), "dec", h.Slice("dec", decs...), "typed", h.TypedSlice(typed...),
 			"s", h.Str(g.pick(genStrings)), "n", g.randNum(), "a", h.FloatD(1))
 		q := qs[r.Intn(len(qs))]
 		if r.Intn(4) == 0 {
